@@ -4,7 +4,7 @@ import time, random, json, os
 from fractions import Fraction
 from . import dag as dagm, cf as cfm, smt
 
-CMP = {0: '<', 1: '<=', 2: '='}
+CMP = {0: '<', 1: '<=', 2: '=', 3: 'distinct'}
 
 def eps_const_ids(nodes):
     out = set()
@@ -24,7 +24,7 @@ def const_truth(C, a, cmpop, b):
     elif d[0].is_ground and d[1].is_ground:
         v = Fraction(int(d[0].LC.numerator), int(d[0].LC.denominator)) / Fraction(int(d[1].LC.numerator), int(d[1].LC.denominator))
     else: return None
-    return {0: v < 0, 1: v <= 0, 2: v == 0}[cmpop]
+    return {0: v < 0, 1: v <= 0, 2: v == 0, 3: v != 0}[cmpop]
 
 def prove_path(entry, path, opts):
     """Returns dict with statuses. opts: per_check_ms, jobs, skip_claims(set of name prefixes)"""
@@ -115,6 +115,9 @@ def prove_path(entry, path, opts):
     sidechecks = []
     for k, d in enumerate(C.denominators()):
         sidechecks.append(('den:%d' % k, pc + ["(= %s 0)" % C.poly_smt(d)]))
+    for k, (kk_, A_) in enumerate(C.polar_inv):
+        sidechecks.append(('polar_k:%d' % k, pc + ["(<= %s 0)" % C.rat_smt(kk_)]))
+        sidechecks.append(('polar_A:%d' % k, pc + ["(not (and (< (- (/ 31415926535 10000000000)) %s) (<= %s (/ 31415926535 10000000000))))" % (C.rat_smt(A_), C.rat_smt(A_))]))
     for k, (N, D) in enumerate(C.nonneg):
         if N.is_ground and D.is_ground: continue
         sidechecks.append(('nonneg:%d' % k, pc + ["(< %s 0)" % C.rat_smt((N, D))]))
@@ -259,7 +262,7 @@ def numeric_search(entry, path, names, nsamples=40, seed=0, tol=1e-20, extra=())
         ok = True
         for (a, c, b, t) in list(path.decisions) + [(a, c, b, True) for (a, c, b) in path.assumes]:
             va, vb = val[a], val[b]
-            tv = {0: va < vb, 1: va <= vb, 2: va == vb}[c]
+            tv = {0: va < vb, 1: va <= vb, 2: va == vb, 3: va != vb}[c]
             if bool(tv) != bool(t): ok = False; break
         if not ok: continue
         npc += 1
